@@ -31,7 +31,7 @@ def node(typ, status=None, ttc=None, tags=None, extras=None, viable=None, necess
 
 @st.composite
 def graphs(draw, max_nodes=12, min_nodes=1, labels=False, attackers=0, tags=True, arith_ttc=False,
-           types=None, extras=False):
+           types=None, extras=False, multi_edges=True):
     n = draw(st.integers(min_nodes, max_nodes))
     nodes = []
     types = types or ['or', 'or', 'and', 'and', 'defense', 'exist', 'notExist']
@@ -60,6 +60,10 @@ def graphs(draw, max_nodes=12, min_nodes=1, labels=False, attackers=0, tags=True
     max_e = min(n * n, 3 * n)
     edges = draw(st.lists(st.tuples(st.integers(0, n - 1), st.integers(0, n - 1)).map(list),
                           max_size=max_e, unique_by=tuple))
+    if multi_edges and edges and draw(st.integers(0, 9)) < 3:
+        # the toolbox produces duplicate edges when a target is reached twice: repeat some edges
+        for k in draw(st.lists(st.integers(0, len(edges) - 1), min_size=1, max_size=3)):
+            edges.append(list(edges[k]))
     atts = []
     for j in range(draw(st.integers(0, attackers)) if attackers else 0):
         reached = draw(st.lists(st.integers(0, n - 1), max_size=min(n, 5), unique=True))
